@@ -200,7 +200,7 @@ func c15Case(prog string) func(string, int64, int, string) rt.CaseResult {
 					if d == 2 {
 						m = dbx.Grpc
 					}
-					parts[d] = c15Steady(&subs[d], seed, idx*10+d, filepath.Join(scratch, fmt.Sprintf("db%d", d)), m, tierN(tier, 350, 700), false)
+					parts[d] = c15Steady(&subs[d], seed, idx*10+2*d+1, filepath.Join(scratch, fmt.Sprintf("db%d", d)), m, tierN(tier, 350, 700), false)
 				}(d)
 			}
 			wg.Wait()
